@@ -12,6 +12,8 @@ def units(tier):
 def per_step(w, st):
     e = w.e
     found = []
+    if st.foreign:
+        return [('child-of-another-element-lost', '%s: %s' % (st.op, st.foreign))]
     un = e.get_children(ordered=False)
     try:
         od = e.get_children(ordered=True)
